@@ -377,10 +377,11 @@ Definition queue_requeue (s : state) (qn : string) (u : N) : state :=
   end.
 
 (* Queue.RemoveConsumer *)
-Definition queue_remove_consumer (s : state) (qn : string) (tag : string) : state :=
+(* Queue.RemoveConsumerInstance: exactly the consumer of channel (c,h) with that tag *)
+Definition queue_remove_consumer (s : state) (qn : string) (c h : N) (tag : string) : state :=
   match get_queue s qn with
   | Some qu =>
-    let cs := remove_first (fun x => seqb (snd x) tag) (q_consumers qu) in
+    let cs := remove_first (fun x => (fst (fst x) =? c) && (snd (fst x) =? h) && seqb (snd x) tag) (q_consumers qu) in
     let n := List.length cs in
     let qu := qu <| q_consumers := cs |> in
     let qu := if Nat.eqb n 0 then qu <| q_rr := O |> <| q_cexcl := false |>
@@ -400,7 +401,7 @@ Definition consumer_stop (s : state) (c h : N) (tag : string) : state :=
       | CStopped => s
       | _ =>
         let s := set_chan s c h (upd_consumer ch tag (fun cm => cm <| c_status := CStopped |>)) in
-        queue_remove_consumer s (c_queue cm) tag
+        queue_remove_consumer s (c_queue cm) c h tag
       end
     | None => s
     end
